@@ -256,6 +256,24 @@ class C12(core.Check):
             ops[at:at] = pre
             reuse["parser"] = True
         if k.random() < 0.2:
+            # motif: documents that stop in mid-statement (the lexer's last token is a keyword), each followed on the same
+            # Parser by a small document of another kind - whatever a Parser remembers from token to token must not
+            # survive from one parse into the next
+            n0 = len(docs)
+            pairs = []
+            for j in range(8):
+                cut = r.choice(["LAYER", "MAP", "CLASS", "STYLE", "SYMBOL", "LABEL"]) + "\n  " + r.choice(["NAME", "SYMBOL", "TYPE", "GRID", "STYLE", "TEXT", "POINTS", "PATTERN"])
+                nxt = r.choice(['GRID\n  LABELFORMAT "DD"\nEND\n', 'SYMBOL\n  NAME "s"\n  TYPE ELLIPSE\n  POINTS\n    1 1\n  END\nEND\n', 'STYLE\n  SYMBOL "s"\nEND\n',
+                                'NAME "x"\n', 'POINTS\n  1 1\nEND\n', 'PATTERN\n  1 2\nEND\n', 'LABEL\n  TEXT "t"\nEND\n', 'LAYER\n  NAME "l"\n  TYPE POINT\nEND\n',
+                                'CLASS\n  NAME "c"\nEND\n', 'LEGEND\n  STATUS ON\nEND\n'])
+                docs[f"d{n0 + 2 * j}"], docs[f"d{n0 + 2 * j + 1}"] = cut, nxt
+                pairs += [f"d{n0 + 2 * j}", f"d{n0 + 2 * j + 1}"]
+            c_ = r.random() < 0.5
+            pre = [{"op": "load", "doc": x_, "e": True, "c": c_, "p": False, "via": "parse"} for x_ in pairs]
+            at = r.randint(0, len(ops))
+            ops[at:at] = pre
+            reuse["parser"] = True
+        if k.random() < 0.2:
             # motif: a document whose INCLUDE file is in a legacy encoding (not valid UTF-8: the load fails), then a
             # document whose INCLUDE file is UTF-8 with non-ASCII text, through the same Parser
             aid, bid = f"d{len(docs)}", f"d{len(docs) + 1}"
